@@ -19,7 +19,7 @@ type c19 struct{}
 func init() { register(c19{}) }
 
 func (c19) ID() string    { return "C19" }
-func (c19) Level() string { return "exhaustive_enumeration" }
+func (c19) Level() string { return "exploration" }
 func (c19) Rule() string {
 	return "the five operation x range matrices of upstream's test/complex/tree_concurrency_test.go (edit-edit 9x10x10, split-split " +
 		"5x8x8, split-edit 9x2x8, style-style 4x6x6, edit-style 7x6x2 = 1592 pairs; that file needs MongoDB and build tags and " +
